@@ -689,6 +689,27 @@ func (ev *EvalCtx) evalCall(e ECall) TV {
 		tag := fc.eng.ti.TagOf(t)
 		fc.concreteTags[tag] = t
 		return TV{V: scalar(Eq(ITag(x.V.T), IntLit(int64(tag))))}
+	case "nilptr":
+		// nilptr(v): interface v holds a nil pointer (of any pointer type)
+		argn(1)
+		x := ev.eval(e.Args[0])
+		fc.sc.DeclFun("ptrtag", []Sort{SInt}, SBool)
+		fc.usesPtrTag = true
+		u := fc.unbox(IPay(x.V.T), types.NewPointer(types.Typ[types.Int]))
+		return TV{V: scalar(And(app(SBool, "ptrtag", ITag(x.V.T)), Eq(PObj(u.T), IntLit(0))))}
+	case "elemkind":
+		// elemkind(v): the dynamic type of interface v is a pointer, slice, array, map or channel
+		argn(1)
+		x := ev.eval(e.Args[0])
+		fc.sc.DeclFun("elemtag", []Sort{SInt}, SBool)
+		fc.usesPtrTag = true
+		return TV{V: scalar(And(Ne(ITag(x.V.T), IntLit(0)), app(SBool, "elemtag", ITag(x.V.T))))}
+	case "ptrobj":
+		// ptrobj(v): the object an interface-held pointer points into
+		argn(1)
+		x := ev.eval(e.Args[0])
+		u := fc.unbox(IPay(x.V.T), types.NewPointer(types.Typ[types.Int]))
+		return TV{V: scalar(PObj(u.T))}
 	case "emptyiface":
 		// emptyiface("T"): the interface value holding the (unique) value of zero-size type T
 		argn(1)
@@ -840,7 +861,15 @@ func (ev *EvalCtx) evalAbstract(p *Block, e ECall) TV {
 			var ok bool
 			s, ok = leafSort(pt)
 			if !ok {
-				ev.fail("abstract function parameter %s must be scalar", pp.Name)
+				// aggregate parameter: one argument per leaf
+				if a.V.T != nil {
+					ev.fail("abstract %s: argument %d should be an aggregate", p.Name, i)
+				}
+				for _, l := range flatten(a.V, nil) {
+					sorts = append(sorts, l.Sort)
+					args = append(args, l)
+				}
+				continue
 			}
 			if a.V.T == nil && a.V.Fs == nil && a.T == nil {
 				a = TV{V: scalar(fc.zero(s))}
